@@ -554,6 +554,16 @@ def gen_C20(c, rng, tier):
                 for mode in range(4):
                     s = [e if e[0] != 'cb' else ['cb', ['builtin', mode, fmt.rtok(target)]] for e in s0]
                     c.add(t, 'run', s, classes=cl + ['mode_%d' % mode], mode_group=group, info=info, nontrivial=(kind == 'mc'))
+            for _ in range(scale(tier, 3, 20)):
+                # a resumed checkpoint and a target precision: the decision must use the earlier results in every mode
+                iters = rng.choice([3, 4, 6]); target = rng.choice([Fraction(1, 4), Fraction(1, 10), Fraction(2, 5)])
+                s0, cl, info = rand_run(rng, fmt, kind, iters=iters, calls=[4, 9, 16], cb=['builtin', 0, fmt.rtok(target)], poly=True, finite_only=True)
+                k = rng.randint(1, iters - 1)
+                s0 = [e for e in s0 if e[0] != 'ops'] + [['ops', [['run', info['calls'][:k]], ['reload'], ['run', info['calls'][k:]], ['dump']]]]
+                group = len(c.cases)
+                for mode in range(4):
+                    s = [e if e[0] != 'cb' else ['cb', ['builtin', mode, fmt.rtok(target)]] for e in s0]
+                    c.add(t, 'run', s, classes=cl + ['mode_%d' % mode, 'resumed', 'target_positive'], mode_group=group, info=info, nontrivial=True)
         # summaries over weight patterns
         for _ in range(scale(tier, 10, 80)):
             n = rng.choice([1, 2, 3, 7, 12, 13, 14, 25, 40])
@@ -688,6 +698,13 @@ def gen_C15(c, rng, tier):
                 # random longer histories
                 s = [e for e in s0 if e[0] != 'ops'] + [['ops', history_ops(rng, calls + calls, True)]]
                 c.add(t, 'run', s, classes=cl + ['history'], info=info)
+                # run, reload, resume, then roll back (to 0 in particular): what the resume stored must not survive the rollback
+                if n >= 2:
+                    a = rng.randint(1, n - 1)
+                    for k in sorted(set([0, rng.randint(0, n)])):
+                        ops = [['run', calls[:a]], ['reload'], ['run', calls[a:]], ['rollback', k], ['text'], ['dump'], ['run', calls[k:]], ['text']]
+                        s = [e for e in s0 if e[0] != 'ops'] + [['ops', ops]]
+                        c.add(t, 'run', s, classes=cl + ['reload_resume_rollback', 'rollback_%s' % ('0' if k == 0 else 'mid')], rollback_group=group, k=k, n=n, nontrivial=True, info=info)
 
 @prop('C01', 'inverse CDF (point, bin, weight) on valid grids at lattice and extreme numbers; channel weight J / sum alpha_j d_j; whole runs of the three integrators '
       'driven by a complete midpoint lattice through the scripted engine (grids: uniform, user, adapted by real refinements; channel maps: piecewise-linear grids '
